@@ -66,7 +66,19 @@ def fn_return(f: FuncInfo) -> Tuple[Optional[ast.expr], List[str]]:
     return f.node.body, f.params
   env = {}
   ret = None
-  for st in f.node.body:
+  body = f.node.body
+  if any(isinstance(st, (ast.For, ast.AnnAssign)) for st in body):
+    # accumulator loops read as comprehensions (fdlstatic/normalise.py); an
+    # object created by a call and filled key by key reads as
+    # __accumulate__(<call>, {k: v for ...})
+    import copy as _copy
+    from fdlstatic import normalise
+    cp = _copy.deepcopy(f.node)
+    normalise.loops_to_comprehensions(cp, accumulate=True)
+    body = [ast.Assign(targets=[st.target], value=st.value) if isinstance(
+        st, ast.AnnAssign) and st.value is not None and isinstance(
+            st.target, ast.Name) else st for st in cp.body]
+  for st in body:
     if isinstance(st, ast.Expr) and isinstance(st.value, ast.Constant):
       continue
     if isinstance(st, ast.Assign) and len(st.targets) == 1 and isinstance(
@@ -109,6 +121,9 @@ def seq(e, param: str):
       return ('ENUM', unparse(e.args[0]))
     if name.endswith('dataclasses.fields') and e.args:
       return ('DCFIELDS', unparse(e.args[0]))
+    if name.split('.')[-1] == 'ordered_arguments':
+      # ordered_arguments returns a dict: iterating it enumerates its keys
+      return ('KEYS', unparse(e))
     return ('CALL', unparse(e))
   if isinstance(e, (ast.Tuple, ast.List)):
     items = []
@@ -542,15 +557,17 @@ def map_children_rule(ctx: Ctx, rs: RuleSet, rule: str):
   n_unfl = 0
   ok = bool(trav) and bool(ret_nodes)
   for n in ret_nodes:
-    v = g.stmt[n].value
+    v = roles.deref(mc, g.stmt[n].value) if g.stmt[
+        n].value is not None else None
     if isinstance(v, ast.Call) and isinstance(
         v.func, ast.Attribute) and v.func.attr == 'unflatten' and unparse(
             v.func.value) == trav[0] if trav else False:
       n_unfl += 1
-      ok = ok and (len(v.args) == 2 and unparse(v.args[0]).endswith('.values')
-                   and unparse(v.args[1]).endswith('.metadata') and
-                   unparse(v.args[0]).split('.')[0] == unparse(
-                       v.args[1]).split('.')[0])
+      a0 = roles.deref(mc, v.args[0]) if len(v.args) == 2 else None
+      a1 = roles.deref(mc, v.args[1]) if len(v.args) == 2 else None
+      ok = ok and (a0 is not None and unparse(a0).endswith('.values')
+                   and unparse(a1).endswith('.metadata') and
+                   unparse(a0).split('.')[0] == unparse(a1).split('.')[0])
     elif v is not None and unparse(v) == val:
       # the value itself comes back only when it has no traverser
       ok = ok and any(
@@ -576,7 +593,7 @@ def _shape_rules(ctx: Ctx, rs: RuleSet):
              'collect_paths_by_id / legacy traversals have the shape the '
              'path guarantees rest on', 8)
   it = ctx.func(f'{DAG}.iterate')
-  tr = it.nested.get('_traverse')
+  tr = ctx.p.nested_of(it, '_traverse')
   if tr is None:
     raise AnalysisError('iterate._traverse not found')
   g = ctx.cfg(tr)
@@ -654,7 +671,7 @@ def _shape_rules(ctx: Ctx, rs: RuleSet):
   cp = ctx.func(f'{DAG}.collect_paths_by_id')
   uses_basic = any(unparse(c.func) == 'BasicTraversal' for c in ctx.calls(cp))
   uses_memo = any('MemoizedTraversal' in unparse(c.func) for c in ctx.calls(cp))
-  tv = cp.nested.get('traverse')
+  tv = ctx.p.nested_of(cp, 'traverse')
   ok = False
   if tv is not None:
     for c in ctx.calls(tv):
@@ -689,7 +706,7 @@ def _shape_rules(ctx: Ctx, rs: RuleSet):
            'all paths are computed from the traversal root', ctx.loc(ap, ap.node))
   # legacy traverse_with_path
   lt = ctx.func('fiddle._src.experimental.daglish_legacy.traverse_with_path')
-  tv = lt.nested.get('traverse')
+  tv = ctx.p.nested_of(lt, 'traverse')
   ok = False
   if tv is not None:
     for n in walk_function(tv.node):
@@ -729,14 +746,14 @@ def _shape_rules(ctx: Ctx, rs: RuleSet):
 
 
 IDMEMO_REASONS = {
-    ('fiddle._src.daglish.collect_paths_by_id.traverse', 'paths_by_id'):
+    ('fiddle._src.daglish.collect_paths_by_id', 'paths_by_id'):
         'ids of nodes of the caller-held `structure`; children yielded by the '
         'registered flatten functions are elements held by their parent '
         '(re-verified: no default-registry flatten allocates memoizable '
         'children), so every recorded object outlives the table',
-    ('fiddle._src.experimental.daglish_legacy.collect_paths_by_id.collect_paths',
+    ('fiddle._src.experimental.daglish_legacy.collect_paths_by_id',
      'paths_by_id'): 'same as daglish.collect_paths_by_id',
-    ('fiddle._src.experimental.daglish_legacy.memoized_traverse.wrap_with_memo',
+    ('fiddle._src.experimental.daglish_legacy.memoized_traverse',
      'memo'): 'legacy traversal over the caller-held structure with the '
               'default registry; recorded objects are nodes of that structure',
 }
@@ -769,7 +786,12 @@ def _idmemo_rules(ctx: Ctx, rs: RuleSet):
     if s.pinned:
       rs.ok(rule, s.key, s.how, loc)
       continue
-    reason = IDMEMO_REASONS.get((s.scope.qualname, s.table))
+    # exceptions name the public function; what its local callback is called
+    # is not part of any interface
+    top = s.scope
+    while isinstance(getattr(top, 'parent', None), FuncInfo):
+      top = top.parent
+    reason = IDMEMO_REASONS.get((top.qualname, s.table))
     if reason is not None and held:
       rs.ok(rule, s.key, 'accepted: ' + reason, loc)
       rs.exception(rule, s.key, reason)
